@@ -24,7 +24,7 @@ VARIABLES stack, steps
 ovars == <<stack, steps>>
 
 Leaves ==
-       { Leaf(t, CZero, <<>>, <<>>) : t \in LeafSet \cap {"id", "zero", "sq", "l2sq", "l1", "swap", "rpart"} }
+       { Leaf(t, CZero, <<>>, <<>>) : t \in LeafSet \cap {"id", "zero", "sq", "l2sq", "l1", "swap", "rpart", "cmod2", "sqr"} }
   \cup { Leaf("scale", a, <<>>, <<>>) : a \in (IF "scale" \in LeafSet THEN Scal ELSE {}) }
   \cup { Leaf("mat", CZero, <<>>, m) : m \in (IF "mat" \in LeafSet THEN Mats ELSE {}) }
   \cup { Leaf(t, CZero, v, <<>>) : t \in LeafSet \cap {"mulvec", "inner", "const", "shift", "smul", "linfn"}, v \in Vecs }
@@ -60,7 +60,7 @@ Spec == Init /\ [][Next]_ovars
 (* ---------------- sanity of the reference (checked by TLC) -------------- *)
 PtsV == { <<CInt(1), CInt(2)>>, <<CInt(-2), CInt(1)>> }
 PtsS == { <<CInt(2)>>, <<CInt(-1)>> }
-Pts(s) == IF s = "V" THEN PtsV ELSE PtsS
+Pts(s) == IF IsVecSp(s) THEN PtsV ELSE PtsS
 Complete == Len(stack) = 1
 Top == stack[1]
 
@@ -88,5 +88,5 @@ LinearOwnDerivative ==
   (Complete /\ IsLinear(Top)) =>
      \A x \in Pts(Dom(Top)), d \in Pts(Dom(Top)) : DirDeriv(Top, x, d) = Eval(Top, d)
 \* types are well defined
-TypeOK == \A i \in 1..Len(stack) : WellTyped(stack[i]) /\ Dom(stack[i]) \in {"V", "S"} /\ Ran(stack[i]) \in {"V", "S"}
+TypeOK == \A i \in 1..Len(stack) : WellTyped(stack[i]) /\ Dom(stack[i]) \in {"V", "S", "VR"} /\ Ran(stack[i]) \in {"V", "S", "VR"}
 =============================================================================
